@@ -414,18 +414,62 @@ def h_step(ctx, W, routes, srcs, n_aliases):
             s, key=lambda a: 0))        # any order; keys are symbolic
     if any(s is not None for s in new_sets):
         ctx.witness("aliases-carried")
-    for name, c in _invariant(ctx, new_table, new_sets, window_keys, W):
-        ctx.prove(c, "step-invariant-" + name)
     ids = {}
 
     def rid(route):
         return ids.setdefault(frozenset(route), len(ids))
     d0, r0, s0 = _step_lookup(table, alias_sets, pk, rid)
     d1, r1, s1 = _step_lookup(new_table, new_sets, pk, rid)
-    ctx.prove(sor(sand(d0, d1), sand(snot(d0), snot(d1))),
-              "step-domain-changed", ("pk", pk))
-    ctx.prove(sor(snot(d0), sand(r0 == r1, (s1 & s0) == s0)),
-              "minimise-route-changed", ("pk", pk, r0, r1, s0, s1))
+    same = sor(snot(d0), sand(r0 == r1, (s1 & s0) == s0))
+    if not ctx.symbolic and not same:
+        # A counterexample of the step obligation is reported only if the
+        # property as stated fails through the public API on the table this
+        # state stands for (every merged entry expanded into its aliases).
+        _confirm_step(table, alias_sets, window_keys, W)
+    if not ctx.prove(same, "minimise-route-changed",
+                     ("pk", pk, r0, r1, s0, s1)):
+        return
+    # The invariant is the induction hypothesis, not the property: if the
+    # (possibly changed) algorithm no longer re-establishes it, the inductive
+    # argument is gone -- inconclusive, never a VIOLATION.
+    if ctx.symbolic:
+        from sx.engine import Inconclusive
+        for name, c in _invariant(ctx, new_table, new_sets, window_keys, W):
+            if ctx.reachable(snot(c)):
+                raise Inconclusive("inductive merge step: invariant %s is "
+                                   "not re-established" % name)
+    if ctx.symbolic:
+        if ctx.reachable(sand(d0, snot(d1))):
+            from sx.engine import Inconclusive
+            raise Inconclusive("inductive merge step: the domain of keys "
+                               "the table stands for shrinks")
+
+
+def _confirm_step(table, alias_sets, window_keys, W):
+    from sx.engine import Inconclusive
+    from rig.routing_table import RoutingTableEntry
+    from rig.routing_table import ordered_covering as oc
+    expanded = []
+    for e, als in zip(table, alias_sets):
+        for (k, m) in (als if als is not None else [(e.key, e.mask)]):
+            expanded.append(RoutingTableEntry(e.route, k, m, set(e.sources)))
+    expanded.sort(key=lambda e: bin(~e.mask & F32).count("1"))
+    out, _ = oc.ordered_covering(list(expanded), None)
+
+    def first(tb, k):
+        for e in tb:
+            if k & e.mask == e.key:
+                return e
+        return None
+    for k in window_keys:
+        a, b = first(expanded, k), first(out, k)
+        if a is not None and (b is None or a.route != b.route or
+                              not set(a.sources) <= set(b.sources)):
+            return          # confirmed on a table in the property's domain
+    raise Inconclusive("inductive merge step: a step counterexample whose "
+                       "pre-state the public API does not reach from the "
+                       "expanded table (invariant too weak, or a defect "
+                       "only reachable from larger tables)")
 
 
 def h_empty(ctx):
